@@ -138,7 +138,7 @@ var Corpus = []Scenario{
 }
 
 func run(r *core.Run) {
-	r.Rule = "fault scenarios on the real keystores through faultfs wrappers: for every write operation kind (first generation, rotation, destroy current, destroy rotated; every key kind) of v1 (filesystem.Storage) and v2 (api.Backend; directory back end for crashes, in-memory for returned errors), a fault-free run yields the operation's storage calls, then every call index is combined with every mode (error returned, crash before, crash after, torn write) after a generated history; the store is reopened and read/list/write follow-ups run; a case is non-trivial when a fault is injected; distinct by (format, history, op, call index, mode)"
+	r.Rule = "fault scenarios on the real keystores through faultfs wrappers: for every write operation kind (first generation, rotation, destroy current, destroy rotated; every key kind) of v1 (filesystem.Storage) and v2 (api.Backend; directory back end for crashes, in-memory for returned errors), a fault-free run yields the operation's storage calls, then every call index is combined with every mode (error returned, crash before, crash after, torn write) after a generated history; the store is reopened and read/list/write follow-ups run; a case is non-trivial when a fault is injected; distinct by (format, history, op, call index, mode); faults INSIDE DirectoryBackend.Put and FileStorage.Copy: the real call runs in a child process under a file size limit (RLIMIT_FSIZE) so that write(2) fails after n bytes – the two primitives alone for sizes and limits around every boundary (compared with the system-call level model), every Put of every kind of v2 write over the directory back end, and v1 rotations on a storage without hard links whose history copy hits the limit"
 	for _, sc := range Corpus {
 		doScenario(r, sc, "stream:corpus")
 	}
@@ -163,6 +163,8 @@ func run(r *core.Run) {
 	runImports(r)
 	runHandles(r)
 	runRotateTool(r)
+	runSys(r)
+	runSec(r)
 	r.Exhaustive = true
 	// generated histories (structured stream)
 	n := r.N(4, 150)
@@ -307,14 +309,15 @@ func runRotateTool(r *core.Run) {
 				}
 			}
 		}
-		// cuts INSIDE the save of the new key pair (implementation only: the model treats the save as one step)
-		base := doRot(fmt.Sprintf("C08.rotin %s 100000 1", format), false, "stream:boundary", "mode:none")
+		// cuts INSIDE the save of the new key pair: the model opens the save up into the key store's own write
+		// operation (Rotate.saveCutV1 / saveCutV2, theorem rotate_save_cut_keeps_old_key)
+		base := doRot(fmt.Sprintf("C08.rotin %s 100000 1", format), true, "stream:boundary", "mode:none")
 		step := 1
 		if !r.Thorough() {
 			step = 3
 		}
 		for j := 0; j < len(base.Calls); j += step {
-			doRot(fmt.Sprintf("C08.rotin %s %d 1", format, j), false, "stream:boundary", "mode:ca")
+			doRot(fmt.Sprintf("C08.rotin %s %d 1", format, j), true, "stream:boundary", "mode:ca")
 		}
 	}
 }
